@@ -290,3 +290,65 @@ Proof.
   replace (y + k <? 1900) with false by (symmetry; apply Z.ltb_ge; lia).
   rewrite N. reflexivity.
 Qed.
+
+(* THE DAY BORROW AS THE MODEL COMPUTES IT (finding C17-day-borrow, for all
+   inputs with a borrow of one month): for a month (y, m) from 1900-04 on and
+   -27 <= d <= 0 the generated code adds the length of month m (not of the
+   month before it), so DATE(y, m, d) is off by exactly
+   days_in_month(m) - days_in_month(m - 1). *)
+Lemma day_borrow_defect y m d : 1900 <= y <= 9999 -> 1 <= m <= 12 -> (y = 1900 -> 4 <= m) ->
+  -27 <= d <= 0 ->
+  let yp := nyear y (m - 1) in let mp := nmonth (m - 1) in
+  exists n1, 60 < n1
+    /\ date_time.f_date (VInt y) (VInt m) (VInt 1) = Ok (VInt n1)
+    /\ date_time.f_date (VInt y) (VInt m) (VInt d)
+       = Ok (VInt (n1 + d - 1 + (days_in_month y m - days_in_month yp mp))).
+Proof.
+  intros Hy Hm H4 Hd yp mp.
+  destruct (day_carry_valid y m 1 Hy Hm ltac:(lia) ltac:(lia)) as (n1 & L1 & D1 & _).
+  { pose proof (ymd2ord_le_max y m 1 ltac:(lia) Hm ltac:(pose proof (dim_bounds y m Hm); lia)).
+    unfold MAXORD in *. lia. }
+  exists n1. split; [exact L1|]. split; [exact D1|].
+  assert (Ya : yadj y = y) by (unfold yadj; replace (y <? 1900) with false by (symmetry; apply Z.ltb_ge; lia); reflexivity).
+  pose proof (dim_bounds y m Hm) as B. pose proof (nmonth_range (m - 1)) as Rp. fold mp in Rp.
+  (* the month before: (yp, mp), 1900-03 or later, and its successor is (y, m) *)
+  assert (P : 1899 <= yp <= 9999 /\ (yp = 1900 -> 3 <= mp) /\ 1900 <= yp
+              /\ ymd2ord y m 1 = ymd2ord yp mp 1 + days_in_month yp mp).
+  { pose proof (ymd2ord_next y (m - 1)) as O. pose proof (next_month y (m - 1)) as N.
+    replace (m - 1 + 1) with m in * by lia. rewrite nyear_valid, nmonth_valid in * by lia.
+    fold yp mp in O, N.
+    assert (yp = y /\ mp = m - 1 \/ yp = y - 1 /\ mp = 12 /\ m = 1).
+    { destruct (mp =? 12) eqn:E12; [apply Z.eqb_eq in E12|apply Z.eqb_neq in E12];
+        injection N as N1 N2; lia. }
+    rewrite (ymd2ord_day yp mp (days_in_month yp mp)) in O. repeat split; lia. }
+  destruct P as (Hyp & H3p & Hyp' & Op).
+  pose proof (dim_bounds yp mp Rp) as Bp.
+  (* one borrow, then the forward carry from (yp, mp) *)
+  destruct (normalize_carry 898 yp mp (d + days_in_month y m) ltac:(lia) Rp H3p ltac:(lia))
+    as (y' & m' & d' & R & A1 & A2 & A3 & A4 & A5).
+  assert (N : date_time.f_normalize_year py_recursion_fuel (VInt (yadj y)) (VInt m) (VInt d)
+              = Ok (VTuple [VInt y'; VInt m'; VInt d'])).
+  { rewrite Ya. unfold py_recursion_fuel.
+    rewrite (normalize_step _ y m d (days_in_month y m)) by
+      (try lia; rewrite max_days_val by lia; rewrite xdim_dim by lia; reflexivity).
+    replace (d <=? 0) with true by (symmetry; apply Z.leb_le; lia).
+    rewrite normalize_month. fold yp mp. rewrite R. apply retup_ok. }
+  rewrite (date_norm y m d _ _ _ ltac:(lia) N).
+  rewrite (ymd2ord_day yp mp) in A5.
+  assert (D1' : n1 = ymd2ord y m 1 - 693594).
+  { pose proof (date_fits y m 1 Hy) as DF. rewrite nyear_valid, nmonth_valid in DF by lia.
+    rewrite DF in D1 by lia. injection D1 as <-. reflexivity. }
+  assert (y' <= 9999).
+  { destruct (Z_le_dec y' 9999) as [L|G]; [exact L|].
+    pose proof (ymd2ord_gt_max y' m' d' ltac:(lia) ltac:(lia)).
+    pose proof (ymd2ord_le_max y m 28 ltac:(lia) Hm ltac:(lia)). rewrite (ymd2ord_day y m 28) in *.
+    unfold MAXORD in *. lia. }
+  pose proof (ymd2ord_late y' m' d' A1 A2 A3 ltac:(lia)).
+  rewrite date_tail_late by lia. do 2 f_equal. lia.
+Qed.
+
+Example day_borrow_defect_ex :
+  date_time.f_date (VInt 2000) (VInt 3) (VInt 0) = Ok (VInt (36586 + 0 - 1 + (31 - 29)))
+  /\ date_time.f_date (VInt 2000) (VInt 3) (VInt 1) = Ok (VInt 36586)
+  /\ days_in_month 2000 3 = 31 /\ days_in_month (nyear 2000 2) (nmonth 2) = 29.
+Proof. repeat split; vm_compute; reflexivity. Qed.
